@@ -6,7 +6,7 @@ from ..gen import ev_tok, AUTHORS
 from ..storecheck import HistGen
 from ..conc import forced, STORE_POINTS
 
-THEOREMS = ['foreign_delete_harmless', 'no_marker_on_foreign_event', 'no_marker_on_foreign_address', 'foreign_history_harmless']
+THEOREMS = ['foreign_delete_harmless', 'no_marker_on_foreign_event', 'no_marker_on_foreign_address', 'foreign_history_harmless', 'spec_foreign_history_harmless']
 
 
 def races(c, runner):
